@@ -242,8 +242,10 @@ def check_config(ctx, F, tag, text, lists):
         for bi in aggs:
             fs = facts_at(b, bi)
             wparam = {"int_vector::IntVector::new": 0, "int_vector::IntVector::with_len": 1, "int_vector::IntVector::with_capacity": 1}[fn]
-            nz = any(f[0] == "cmp" and f[1] == "Ne" and core(f[2])[:2] == ("param", wparam) and m(Const(0), f[3]) for f in fs)
-            le = any(f[0] == "cmp" and f[1] == "Le" and core(f[2])[:2] == ("param", wparam) and m(Const(64), f[3]) for f in fs)
+            from guards import fact_nonzero, fact_at_most
+            wt = ("param", wparam, b.local_name(wparam + 1))
+            nz = fact_nonzero(fs, wt)
+            le = fact_at_most(fs, wt, 64)
             ok = ok and nz and le
         ctx.ob("C07.R2.width-range", fn + tag, loc(b.raw["span"]), ok, "guard-dominance", "IntVector built only under width != 0 and width <= 64: %s" % ok)
 
